@@ -1,7 +1,11 @@
 """C14 — state changes walk the EtherCAT state machine in order.
 Real `Terminal.to_operational` against a scripted AL-status responder, compared
 with the Lean model `Ebv.AlDriver.toOperational`; the property's own trace
-predicates are evaluated on the implementation's trace."""
+predicates are evaluated on the implementation's trace.
+A second family (`bus`) brings up 1..17 real Terminal objects concurrently on one real EtherCat object (connect with a
+stub endpoint, real sendloop / Packet / process_packet / roundtrip) over a frame-level bus simulation in which other
+callers' datagrams (address probes of find_free_address, terminals that are gone, positional reads beyond the bus) go
+unanswered in the same frames; the trace judged is the one each simulated terminal saw at its own registers."""
 import asyncio
 
 ID = "C14"
@@ -12,13 +16,20 @@ THEOREMS = [
     "Ebv.C14.ack_first", "Ebv.C14.writes_ascending", "Ebv.C14.never_above_target",
     "Ebv.C14.write_after_report", "Ebv.C14.returns_only_when_reached",
     "Ebv.C14.returns_target_after_ack", "Ebv.C14.raises_on_error", "Ebv.C14.never_falls_off",
+    "Ebv.C14.Bus.runD_start", "Ebv.C14.Bus.devRun_full", "Ebv.C14.Bus.sys_projection",
+    "Ebv.C14.Bus.sys_independent", "Ebv.C14.Bus.sys_complete",
 ]
 TRUSTED = ["hand-written model Ebv.AlDriver of Terminal.to_operational/get_state, tied by trace correspondence",
            "harness/vh/props/c14.py scripted responder; MachineState order and values regenerated into Ebv.Generated.Consts"]
-ASSUMPTIONS = ["ec.roundtrip is the only way to_operational touches the bus (it is replaced by a scripted responder)",
+ASSUMPTIONS = ["ec.roundtrip is the only way to_operational touches the bus (single-terminal family: replaced by a scripted responder; "
+               "bus family: the real one, down to the frames)",
+               "bus family: frames are not lost; a terminal whose script is used up reports INIT with the error flag from then on",
                "terminal answers are arbitrary (state nibble, error bit, status) sequences; BOOTSTRAP never the start state"]
 RULE = ("scripts = target in {2,4,8} x list of (state,error,status) answers; generated from a simulated AL state machine "
-        "(0..k polls per transition, error injected at a random poll) and adversarial random answers; non-trivial = at least one write")
+        "(0..k polls per transition, error injected at a random poll) and adversarial random answers; non-trivial = at least one write; "
+        "bus: 1..17 such terminals started together (random order and lags) with 0..3 other callers whose datagrams nobody answers "
+        "(find_free_address probes, an absent terminal, positional reads beyond the bus) or that read other registers, responses "
+        "delayed by 0..4 loop turns")
 
 
 class Blocked(Exception):
@@ -64,9 +75,16 @@ def show(trace, out):
     return " ".join("r" if e[0] == "r" else f"w{e[1]}" for e in trace) + " | " + out
 
 
-def oracle(ctx, case, trace, out):
-    """the property text, evaluated on the implementation's trace"""
-    target, rs = case["target"], case["responses"]
+def oracle(ctx, case, trace, out, target=None, rs=None, who=""):
+    """the property text, evaluated on the trace of register accesses one terminal saw"""
+    if target is None:
+        target, rs = case["target"], case["responses"]
+    if who:
+        class _Ctx:     # same requirements, the message names the terminal
+            @staticmethod
+            def require(cond, what, case, observed, cls=None):
+                return ctx.require(cond, who + what, case, who + str(observed), cls)
+        return oracle(_Ctx, case, trace, out, target, rs)
     if not rs or rs[0][0] not in (1, 2, 4, 8) or out == "value-error":
         return    # start state BOOTSTRAP / a nibble that is no state: outside the property's domain
     seq = [1, 2, 4, 8]
@@ -104,6 +122,178 @@ def oracle(ctx, case, trace, out):
         ctx.require(out == "ethercat-error", "error during the state change not raised", case, show(trace, out), "raise")
     if out == "ethercat-error":
         ctx.require(any(r[1] for r in consumed[1:]), "raised without a reported error", case, show(trace, out), "raise")
+
+
+
+# ---------------------------------------------------------------- several terminals on one bus
+# Real EtherCat object (connect/connection_made with a stub endpoint, real Queue, sendloop, Packet, process_packet,
+# roundtrip) and real Terminal objects; the bus is a frame-level simulation: every present station has its own scripted
+# AL status answers (after the script: INIT + error flag for ever, so every call ends), FPRD/FPWR datagrams to present
+# stations are executed (working counter 1), everything else passes unanswered (working counter 0).  The trace of a
+# terminal is what the simulated terminal itself saw at its AL control / AL status registers.
+import logging
+import random
+import struct
+
+ERR_TAIL = [1, True, 0]
+
+
+def walk_frame(data):
+    """independent walk over an EtherCAT frame -> [(cmd, addr, off, start, stop)] without the identifying datagram"""
+    out, p, first = [], 2, True
+    while True:
+        cmd, _idx, addr, off, lf = struct.unpack_from("<BBHHH", data, p)
+        start, stop = p + 10, p + 10 + (lf & 0x7ff)
+        if not first:
+            out.append((cmd, addr, off, start, stop))
+        first = False
+        p = stop + 2
+        if not lf >> 15:
+            return out
+
+
+class _Sock:
+    def bind(self, addr):
+        pass
+
+
+class AlBus:
+    def __init__(self, loop, terms, delays):
+        self._sock, self.loop, self.proto, self.delays, self.nframes, self.shared = _Sock(), loop, None, delays, 0, 0
+        self.terms = {t["addr"]: {"it": iter(t["responses"]), "trace": []} for t in terms}
+
+    def sendto(self, data, addr):
+        ans = bytearray(data)
+        dgrams = walk_frame(bytes(data))
+        self.shared += len(dgrams) > 1
+        for cmd, station, off, start, stop in dgrams:
+            t = self.terms.get(station)
+            if t is None or cmd not in (4, 5):
+                continue                                        # nobody executes it: working counter stays 0
+            if cmd == 4 and off == 0x130 and stop - start == 6:
+                s, e, st = next(t["it"], ERR_TAIL)
+                t["trace"].append(("r",))
+                ans[start:stop] = struct.pack("<H2xH", s | (0x10 if e else 0), st)
+            elif cmd == 5 and off == 0x120 and stop - start == 2:
+                t["trace"].append(("w", struct.unpack_from("<H", data, start)[0]))
+            elif 0x120 <= off < 0x136:
+                t["trace"].append(("w" if cmd == 5 else "r", f"?{off:x}+{stop - start}"))
+            elif cmd == 4:
+                ans[start:stop] = bytes(stop - start)
+            ans[stop:stop + 2] = b"\x01\x00"
+        d = self.delays[self.nframes % len(self.delays)] if self.delays else 0
+        self.nframes += 1
+        self._later(d, bytes(ans), addr)
+
+    def _later(self, d, ans, addr):
+        if d:
+            self.loop.call_soon(self._later, d - 1, ans, addr)
+        else:
+            self.loop.call_soon(self.proto.datagram_received, ans, addr)
+
+
+def run_bus(case):
+    """-> ([(trace, out) per terminal], stats)"""
+    from ebpfcat.ethercat import EtherCat, Terminal, MachineState, ECCmd, EtherCatError
+    loop = asyncio.new_event_loop()
+    bus = AlBus(loop, case["terms"], case.get("delays", []))
+    outs = {}
+
+    async def endpoint(factory, **kw):
+        bus.proto = factory()
+        bus.proto.connection_made(bus)
+        return bus, bus.proto
+
+    async def bring_up(ec, k, t):
+        for _ in range(t.get("lag", 0)):
+            await asyncio.sleep(0)
+        term = Terminal(ec)
+        term.position = t["addr"]
+        try:
+            ret = await term.to_operational(MachineState(t["target"]))
+            outs[k] = "none" if ret is None else "returned"
+        except EtherCatError:
+            outs[k] = "ethercat-error"
+        except ValueError:
+            outs[k] = "value-error"
+        except Exception as e:      # noqa: BLE001 - canonicalised
+            outs[k] = "other:" + type(e).__name__
+
+    async def ghost(ec, g):
+        for _ in range(g.get("lag", 0)):
+            await asyncio.sleep(0)
+        try:
+            for _ in range(g.get("n", 1)):
+                if g["kind"] == "probe":            # the master looking for a free station address (unanswered probes)
+                    await ec.find_free_address()
+                elif g["kind"] == "absent":         # a terminal that is not (any more) on the bus
+                    term = Terminal(ec)
+                    term.position = g["addr"]
+                    await term.to_operational(MachineState(g.get("target", 8)))
+                elif g["kind"] == "reader":         # answered traffic to a present station
+                    await ec.roundtrip(ECCmd.FPRD, g["addr"], 0x10, "H")
+                else:                               # a positional read beyond the end of the bus
+                    await ec.roundtrip(ECCmd.APRD, -g["addr"], 0x10, "H", 0)
+        except EtherCatError:
+            pass
+
+    async def go():
+        ec = EtherCat("lo")
+        ec.terminal_addr_range = tuple(case["probe_range"])
+        await ec.connect()
+        tasks = []
+        for kind, k in case["order"]:
+            tasks.append(bring_up(ec, k, case["terms"][k]) if kind == "t" else ghost(ec, case["ghosts"][k]))
+        try:
+            await asyncio.wait_for(asyncio.gather(*tasks), 20)
+        except asyncio.TimeoutError:
+            pass
+        finally:
+            for t in asyncio.all_tasks():
+                if t is not asyncio.current_task():
+                    t.cancel()
+
+    loop.create_datagram_endpoint = endpoint
+    random.seed(case.get("rseed", 0))
+    logging.disable(logging.CRITICAL)
+    try:
+        loop.run_until_complete(go())
+        loop.run_until_complete(asyncio.sleep(0))
+    finally:
+        logging.disable(logging.NOTSET)
+        loop.close()
+    res = [(bus.terms[t["addr"]]["trace"], outs.get(k, "blocked")) for k, t in enumerate(case["terms"])]
+    return res, {"frames": bus.nframes, "shared": bus.shared}
+
+
+def gen_bus(rng):
+    n = rng.choice([1, 2, 2, 3, 3, 4, 5, 6, 17])
+    addrs = rng.sample(range(1000, 1040), n)
+    terms = []
+    for a in addrs:
+        c = gen(rng)
+        terms.append({"addr": a, "target": c["target"], "responses": c["responses"], "lag": rng.choice([0, 0, 0, 1, 2, 5])})
+    ghosts = []
+    for _ in range(rng.choice([0, 1, 1, 2, 3])):
+        kind = rng.choice(["probe", "probe", "absent", "reader", "beyond"])
+        ghosts.append({"kind": kind, "n": rng.choice([1, 2, 3, 6]), "lag": rng.choice([0, 0, 1, 3]),
+                       "addr": rng.choice(addrs) if kind == "reader" else rng.randrange(1040, 1060),
+                       "target": rng.choice([2, 4, 8])})
+    order = [["t", k] for k in range(n)] + [["g", k] for k in range(len(ghosts))]
+    rng.shuffle(order)
+    return {"bus": 1, "terms": terms, "ghosts": ghosts, "order": order, "probe_range": [1000, 1100],
+            "delays": [rng.choice([0, 0, 1, 2, 4]) for _ in range(rng.choice([0, 1, 2, 3]))], "rseed": rng.randrange(1 << 30)}
+
+
+def check_bus(ctx, c):
+    res, st = run_bus(c)
+    ctx.case(c, nontrivial=any(e[0] == "w" for tr, _ in res for e in tr),
+             kind="bus:" + ("shared-frames" if st["shared"] else "alone") + ("+unanswered" if c["ghosts"] else ""))
+    ctx.stats["bus:terminals"] += len(res)
+    for k, (t, (trace, out)) in enumerate(zip(c["terms"], res)):
+        ctx.stats["bus:" + out] += 1
+        oracle(ctx, c, trace, out, t["target"], t["responses"] + [ERR_TAIL] * 3, f"terminal {k} (station {t['addr']}): ")
+    return " || ".join(show(tr, out) for tr, out in res)
 
 
 def gen(rng):
@@ -145,8 +335,12 @@ def run(ctx):
             for e0 in (False, True):
                 rs = [[start, e0, 0]] + [[s, False, 0] for s in (2, 4, 8) if s > (1 if e0 else start)]
                 cases.append({"target": target, "responses": rs})
+    cases += [gen_bus(ctx.rng) for _ in range(ctx.n(400, 8000))]
     impl = []
     for c in cases:
+        if "bus" in c:
+            impl.append(check_bus(ctx, c))
+            continue
         trace, out = run_impl(c["target"], c["responses"])
         impl.append(show(trace, out))
         ctx.case(c, nontrivial=any(e[0] == "w" for e in trace), kind=out)
@@ -154,10 +348,12 @@ def run(ctx):
     model = ctx.drive(DRIVER, cases, "to_operational")
     if model is not None:
         for c, i, m in zip(cases, impl, model):
-            ctx.agree("to_operational trace", c, i, m)
+            ctx.agree("to_operational trace" + (" of every terminal on a shared bus" if "bus" in c else ""), c, i, m)
 
 
 def replay(ctx, case):
+    if "bus" in case:
+        return {"trace": check_bus(ctx, case)}
     trace, out = run_impl(case["target"], case["responses"])
     oracle(ctx, case, trace, out)
     return {"trace": show(trace, out)}
@@ -166,7 +362,9 @@ LEVEL_TEXT = ("Lean 4 proof over a hand-written model of to_operational: for eve
               "requests are the ascending run PRE-OP,SAFE-OP,OP above the start state, never above the target, each next request "
               "directly after an error-free report of the previous state, return only at/above target (exactly the target after an "
               "acknowledged error), raise iff an error is reported while changing state. Tied to /repo by exact trace correspondence "
-              "of the real coroutine under a scripted bus and by regenerating MachineState order/values into the proofs.")
+              "of the real coroutine under a scripted bus and by regenerating MachineState order/values into the proofs. For any number of "
+              "terminals driven concurrently over one bus, under every schedule and with any other traffic, each terminal sees exactly its "
+              "single-terminal trace (sys_projection / sys_independent / sys_complete), checked on the real send loop with shared frames.")
 LEVEL_NOTE = ("trusted: Lean kernel + propext/Classical.choice/Quot.sound; hand transcription Ebv.AlDriver validated (not verified) by "
               "differential traces on generated scripts; ec.roundtrip is the only bus access; answers with a nibble that is no state and "
               "BOOTSTRAP as start state are outside the property")
